@@ -339,6 +339,9 @@ def k_nocrash(run, case):
         rc2, msg = fresh_start(home)
         run.check(rc2 == 0, "the next start after an upgrade sees every default key", case,
                   "start after %s on a home stamped %r fails: %s" % (scenario, stamp, msg), key="upgrade:next-start-fails")
+        rc3, msg3 = fresh_start(home)
+        run.check(rc3 == 0, "the start after the next start succeeds as well", case,
+                  "second start after %s fails: %s" % (scenario, msg3), key="nocrash:second-start-fails")
         state, data = classify(home)
         run.check(state.startswith("settings:complete"), "settings file complete after the command", case,
                   "settings file is %s after %s" % (state, scenario), key="nocrash:file-not-complete")
@@ -406,6 +409,8 @@ def main(run):
             for wk in writes:
                 cells.append({"scenario": sc, "K": wk, "variant": "tornhalf", "layout": layout})
     nocrash = [{"scenario": sc, "stamp": st} for sc in SCENARIOS if sc.startswith("upgrade") for st in OLD_STAMPS]
+    nocrash += [{"scenario": "set_backend", "stamp": OLD_STAMPS[0]}, {"scenario": "set", "stamp": OLD_STAMPS[0]},
+                {"scenario": "reset_subset", "stamp": OLD_STAMPS[0]}]
     for i in run.mine(len(nocrash)):
         k_nocrash(run, run.case("nocrash", i, **nocrash[i]))
     run.extra["call_boundaries_per_scenario"] = counts
